@@ -157,8 +157,32 @@ def nested_record_names():
     )
 
 
+def shadowed_names():
+    """a process re-declares a constant / type of the architecture with another letter case and uses it in its own declarative part"""
+    return (
+        "library ieee;\nuse ieee.std_logic_1164.all;\n\nentity shadow is\n  port (\n    clk : in std_logic\n  );\nend entity shadow;\n\n"
+        + "architecture rtl of shadow is\n\n  constant C_WIDTH : integer := 8;\n  subtype WORD_T is integer range 0 to 255;\n  signal sig_a : std_logic;\n\nbegin\n\n"
+        + "  proc_shadow : process (clk) is\n\n    constant c_width : integer := 4;\n    constant c_msb : integer := c_width - 1;\n    subtype word_t is integer range 0 to 15;\n    variable v_w : word_t;\n\n  begin\n\n"
+        + "    if (clk = '1') then\n      v_w := c_width + c_msb;\n      sig_a <= '0';\n    end if;\n\n  end process proc_shadow;\n\n"
+        + "  proc_plain : process (clk) is\n  begin\n\n    sig_a <= '1' when c_Width = 8 else '0';\n\n  end process proc_plain;\n\nend architecture rtl;\n"
+    )
+
+
+def mixed_interface_classes():
+    """interface lists whose elements belong to different interface classes (plain, constant, signal, variable, type, function), in an
+    order that differs from the order any rule lists those classes in, every line starting in column 0 or mis-indented"""
+    return (
+        "library ieee;\nuse ieee.std_logic_1164.all;\n\nentity mixed is\ngeneric (\nDEPTH : positive := 16;\n     constant WIDTH : positive := 8;\ntype t_data;\n"
+        + " LAST : boolean := true;\nconstant FIRST : boolean := false\n);\nport (\nclk : in std_logic;\n   signal rst : in std_logic;\ndin : in std_logic;\nsignal dout : out std_logic\n);\nend entity mixed;\n\n"
+        + "architecture rtl of mixed is\n\nprocedure p (\na : in integer;\n     signal b : in std_logic;\nvariable c : out integer;\n  constant d : in integer;\ne : in integer\n) is\nbegin\nc := a + d + e;\nend procedure p;\n\n"
+        + "function f (\nx : integer;\n   constant y : integer;\nz : integer\n) return integer is\nbegin\nreturn x + y + z;\nend function f;\n\nbegin\n\ndout <= din;\n\nend architecture rtl;\n"
+    )
+
+
 def all_designs():
     d = {}
+    d["mixed_interface_classes"] = mixed_interface_classes()
+    d["shadowed_names"] = shadowed_names()
     d["repeated_on_one_line"] = repeated_on_one_line()
     d["nested_record_names"] = nested_record_names()
     d["if_condition_layouts"] = if_condition_layouts()
